@@ -3,6 +3,7 @@ package main
 import (
 	"fmt"
 	"go/ast"
+	"go/token"
 	"go/types"
 )
 
@@ -130,6 +131,10 @@ func setLocalRule(r *Run, rule string) {
 			switch x := n.(type) {
 			case *ast.AssignStmt:
 				for i, l := range x.Lhs {
+					// what is stored is what was given: the parameters are not assigned on the way
+					if o := objOf(info, l); o != nil && (o == types.Object(sig.Params().At(0)) || o == types.Object(sig.Params().At(1))) {
+						ok = false
+					}
 					ix, isIx := l.(*ast.IndexExpr)
 					if !isIx {
 						continue
@@ -146,6 +151,12 @@ func setLocalRule(r *Run, rule string) {
 			case *ast.SelectorExpr:
 				if _, fld := fieldOf(info, x); fld != nil && namedIs(fld.Type(), modPath, "Context") && !fld.Embedded() {
 					ok = false // touches outer
+				}
+			case *ast.UnaryExpr:
+				if x.Op == token.AND {
+					if o := objOf(info, x.X); o != nil && (o == types.Object(sig.Params().At(0)) || o == types.Object(sig.Params().At(1))) {
+						ok = false
+					}
 				}
 			}
 			return true
